@@ -525,7 +525,7 @@ pub fn run(ctx: &Ctx) -> (Report, PropertyMeta) {
     ));
     report.merge(r);
 
-    let n = t.pick(2500, 100_000);
+    let n = t.pick(20_000, 400_000);
     let r = run_random(
         ctx,
         "concurrent",
@@ -553,7 +553,7 @@ pub fn run(ctx: &Ctx) -> (Report, PropertyMeta) {
     report.merge(r);
 
     let total = report.evaluations;
-    health(&mut report, "has-out-of-turn-call", total, 100);
+    health_abs(&mut report, "has-out-of-turn-call", 500);
     health_abs(&mut report, "overlapping-requests", 500);
     health_abs(&mut report, "partial-writes", 300);
 
